@@ -43,6 +43,7 @@ ObsLen(lens, nm) ==
 
 JudgeParse(e) ==
     IF ~Accepts(e.block) THEN Drift("own_name_accepted")     \* the module is judged like any other
+    ELSE IF ~NoDuplicates(NamesOf(e.endo)) THEN Drift("C20_EachVariableOnce")
     ELSE IF \/ ~SameEqs(e.endo, parser'.endo)
             \/ e.lagged # parser'.lagged
             \/ ~SameExos(e.exos, parser'.exos)
